@@ -96,7 +96,7 @@ def stream_entry_events(prog):
     return events
 
 
-def judge(prop, progs, traces, verdicts, started, tier, seed, extra_cov=None):
+def judge(prop, progs, counts, verdicts, started, tier, seed, extra_cov=None):
     """Turn verdicts into VIOLATION / KNOWN-FINDING lines, evidence and an exit status."""
     known = findings.load()
     byid = dict((r["id"], r) for r in verdicts)
@@ -139,8 +139,8 @@ def judge(prop, progs, traces, verdicts, started, tier, seed, extra_cov=None):
         "distinct_nontrivial": len(nontrivial),
         "rule": RULES[prop],
         "samples": samples,
-        "traces_validated_against_impl": len(traces),
-        "steps_validated": sum(len(t["ev"]) for t in traces),
+        "traces_validated_against_impl": counts[0],
+        "steps_validated": counts[1],
         "known_finding_traces": sum(len(h) for h in knownhits.values()),
         "clause_histogram": _histogram(verdicts, prop),
     }
@@ -195,6 +195,29 @@ def model_guided(prop, tier, seed):
             prog.steps = modelrun.concretise(profile, hist, sl["first"], sl["escale"])
             prog.focus = "model:" + sl["name"]
             progs.append(prog)
+        if tier == "thorough" and sl["module"] == "MC_Motion" and sl["profile"] == "exact" \
+                and index == 0:
+            # exhaustive transfer for short programs: EVERY input sequence of length 3 over the
+            # slice alphabet (after homing, one region) is replayed into the real code
+            econsts = dict(sl["consts"])
+            econsts.update({"Depth": 4, "MaxRegs": 1})
+            ecfg = modelrun.write_cfg("enum-" + prop, econsts, sl["inv"], constraint="Emit",
+                                      view=None)
+            allbehs, eviol = modelrun.enumerate_behaviours(sl["module"], ecfg)
+            if eviol:
+                raise common.MachineryError("model-level invariant %s violated (enumeration)"
+                                            % eviol)
+            for hist in allbehs:
+                prog = gen_motion.Program({"g90e": False, "enter": [], "exit": [], "xg": {},
+                                           "at": None}, seed)
+                prog.steps = modelrun.concretise(profile, hist, sl["first"], sl["escale"])
+                prog.focus = "model-exhaustive:" + sl["name"]
+                progs.append(prog)
+            summaries.append({"slice": sl["name"] + " (all behaviours of 3 steps)",
+                              "states": 0, "transitions": 0, "depth": 3,
+                              "constants": dict((k, str(v)) for k, v in econsts.items()),
+                              "invariants": sl["inv"], "behaviours_exported": len(allbehs),
+                              "behaviours_replayed": len(allbehs), "exhaustive_replay": True})
         summaries.append({"slice": sl["name"], "states": res["states"],
                           "transitions": res["transitions"], "depth": res["depth"],
                           "constants": dict((k, str(v)) for k, v in sl["consts"].items()),
@@ -222,14 +245,28 @@ def run(prop, tier, seed):
     progs = gen_programs(prop, count, seed)
     mprogs, mcs = model_guided(prop, tier, seed)
     progs = mprogs + progs
-    traces = [record.run_filter_program(p, i + 1, keep_state=True) for i, p in enumerate(progs)]
-    if prop == "C09":
-        for trace, prog in zip(traces, progs):
-            trace["ev"] = trace["ev"] + stream_entry_events(prog)
-    verdicts = common.validate_traces("TraceT2", "TraceT2.cfg", traces, "t2-" + prop)
-    # sub-resolution values (1e-5 mm extrusion quanta) are below the model's native unit
-    t1 = t1_summary([t for t, p in zip(traces, progs)
-                     if getattr(p, "focus", "") not in ("tiny", "fuzz")])
+    # record and validate in batches (thorough runs replay hundreds of thousands of programs)
+    verdicts = []
+    t1 = {"conform": 0, "diverged": 0, "unmodelled": 0, "first_divergences": []}
+    ntraces, nsteps = 0, 0
+    batch = 2500
+    for start in range(0, len(progs), batch):
+        part = progs[start:start + batch]
+        traces = [record.run_filter_program(p, start + i + 1, keep_state=True)
+                  for i, p in enumerate(part)]
+        if prop == "C09":
+            for trace, prog in zip(traces, part):
+                trace["ev"] = trace["ev"] + stream_entry_events(prog)
+        verdicts.extend(common.validate_traces("TraceT2", "TraceT2.cfg", traces, "t2-" + prop))
+        # sub-resolution values (1e-5 mm extrusion quanta) are below the model's native unit
+        partial = t1_summary([t for t, p in zip(traces, part)
+                              if getattr(p, "focus", "") not in ("tiny", "fuzz")])
+        for key in ("conform", "diverged", "unmodelled"):
+            t1[key] += partial[key]
+        t1["first_divergences"] = (t1["first_divergences"] + partial["first_divergences"])[:5]
+        ntraces += len(traces)
+        nsteps += sum(len(t["ev"]) for t in traces)
+        del traces
     extra = {
         "t1_conformance": t1,
         "model_conformant": t1["diverged"] == 0,
@@ -244,7 +281,8 @@ def run(prop, tier, seed):
         extra["states"] = sum(m["states"] for m in mcs)
         extra["transitions"] = sum(m["transitions"] for m in mcs)
         extra["exhaustive"] = True
-    status, coverage, nviol = judge(prop, progs, traces, verdicts, started, tier, seed, extra)
+    status, coverage, nviol = judge(prop, progs, (ntraces, nsteps), verdicts, started, tier, seed,
+                                    extra)
     if t1["diverged"]:
         common.log("note: %d traces diverge from Filter.tla (first: %s) -- the exhaustive model "
                    "result is not transferred to this tree; verdict rests on the contract "
